@@ -361,4 +361,48 @@ theorem gather_ratios_in_unit (isectOrig isectRem origSize matchSize matchArg : 
 
 example : (3 ≤ 10) ∧ (3 ≤ 12) ∧ (0 < 10) ∧ (0 < 12) := by decide
 
+/-! ### the match sketch is downsampled before anything is read from it -/
+
+/-- T-gather_ani, "for the containments it reports" (any number type): every ANI-related output of
+`calculate_gather_stats` — ratios, point estimates, both intervals and the `n_unique_kmers` they are
+computed with — for a match at a **finer** scaled is the output for the same match downsampled to the
+query's scaled before the call.  (This is the invariance the spec column of `gatherv` demands of the
+real function.) -/
+theorem gather_downsample_invariant {α : Type} [RealLike α]
+    (ci : α → Nat → Nat → Nat → Option α → α × α)
+    (maxHashQ k qScaled mScaled : Nat) (orig remaining mat : List Nat) (matchSizeArg : Nat)
+    (calcCi : Bool) (conf : Option α) (h : mScaled < qScaled) :
+    gatherStatsAni ci maxHashQ k qScaled mScaled orig remaining mat matchSizeArg calcCi conf
+      = gatherStatsAni ci maxHashQ k qScaled qScaled orig remaining (sketchOf maxHashQ mat)
+          matchSizeArg calcCi conf := by
+  have h1 : ¬ mScaled > qScaled := by omega
+  have h2 : ¬ mScaled = qScaled := by omega
+  simp [gatherStatsAni, downsampleTo, h1, h2]
+
+example : (10 : Nat) < 100 := by decide
+
+/-- the interval is computed with the size of the downsampled match times the query's scaled, not with
+the numbers of the sketch that was handed in -/
+theorem gather_ci_uses_downsampled {α : Type} [RealLike α]
+    (ci : α → Nat → Nat → Nat → Option α → α × α)
+    (maxHashQ k qScaled mScaled : Nat) (orig remaining mat : List Nat) (matchSizeArg : Nat)
+    (conf : Option α) (h : mScaled < qScaled) :
+    ∃ r g, gatherStatsAni ci maxHashQ k qScaled mScaled orig remaining mat matchSizeArg true conf
+        = some (r, g, (sketchOf maxHashQ mat).length * qScaled) ∧
+      g.queryCi = some (ci r.fUniqueToQuery k qScaled ((sketchOf maxHashQ mat).length * qScaled) conf) ∧
+      g.matchCi = some (ci r.fMatch k qScaled ((sketchOf maxHashQ mat).length * qScaled) conf) := by
+  have h1 : ¬ mScaled > qScaled := by omega
+  have h2 : ¬ mScaled = qScaled := by omega
+  simp [gatherStatsAni, downsampleTo, gatherAni, nUniqueKmers, h1, h2]
+
+/-- a coarser match is refused -/
+theorem gather_refuses_coarser {α : Type} [RealLike α]
+    (ci : α → Nat → Nat → Nat → Option α → α × α)
+    (maxHashQ k qScaled mScaled : Nat) (orig remaining mat : List Nat) (matchSizeArg : Nat)
+    (calcCi : Bool) (conf : Option α) (h : qScaled < mScaled) :
+    gatherStatsAni ci maxHashQ k qScaled mScaled orig remaining mat matchSizeArg calcCi conf = none := by
+  simp [gatherStatsAni, h]
+
+example : (100 : Nat) < 1000 := by decide
+
 end Sourmash.C19
